@@ -506,6 +506,10 @@ func C17(c *core.Ctx) {
 		// looked up in the wrong table, the entry is never released and its timer is never found by Stop
 		checkTimerCallback(c, "R4", a.rxStart, "RxTransaction", 1, "timeout")
 		checkTimerCallback(c, "R4", a.txStart, "TxTransaction", 0, "retransTimeout")
+		// a timer notification is processed exactly once and never faults: the timeout arm of the event loop looks
+		// the transaction up in the table of its own type and does nothing for one that is gone (C06 R4 / C09 R2)
+		shareFrom(c, "C06", "R4", func(o *core.Obligation) bool { return o.Rule == "R4" && strings.Contains(o.Key, "/R4/timeout-arm") }, 1, "RX timeout arm")
+		shareFrom(c, "C09", "R4", func(o *core.Obligation) bool { return o.Rule == "R2" && strings.Contains(o.Key, "/R2/timeout-arm") }, 1, "TX timeout arm")
 	}
 }
 
@@ -719,6 +723,14 @@ func C18(c *core.Ctx) {
 	// progress of periodic reporting: ticks are never suppressed by state (shared with C15 R2), and a URR's
 	// registration is added / dropped only with the URR itself (C03 R8): "every report eventually forwarded"
 	tickAlwaysPosted(c, "R2")
+	// the loop that a stale timer notification or a tick for a dropped group would take down or wedge: the timeout
+	// arms tolerate a transaction that is gone (C06 R4 / C09 R2), and a period group exists only with a running ticker
+	// (C15 R2): stopTicker on a group that never started one blocks the periodic server for ever
+	shareFrom(c, "C06", "R2", func(o *core.Obligation) bool { return o.Rule == "R4" && strings.Contains(o.Key, "/R4/timeout-arm") }, 1, "RX timeout arm")
+	shareFrom(c, "C09", "R2", func(o *core.Obligation) bool { return o.Rule == "R2" && strings.Contains(o.Key, "/R2/timeout-arm") }, 1, "TX timeout arm")
+	shareFrom(c, "C15", "R2", func(o *core.Obligation) bool {
+		return o.Rule == "R2" && (strings.Contains(o.Key, "/R2/add-installs-group") || strings.Contains(o.Key, "/R2/drop-sites") || strings.Contains(o.Key, "/R2/ticker-stopped-before-drop"))
+	}, 2, "group life-cycle rules of the periodic server")
 	shareFrom(c, "C03", "R2", func(o *core.Obligation) bool {
 		return o.Rule == "R8" && (strings.Contains(o.Key, "/R8/add-caller") || strings.Contains(o.Key, "/R8/del-caller") || strings.Contains(o.Key, "/R8/lossless-post"))
 	}, 3, "periodic registration call sites")
